@@ -333,7 +333,14 @@ class Resolver:
         hits = [v for (stem, nm), v in ex.L.consts.items() if nm == parts[-1] and (len(parts) < 2 or parts[-2] == stem or not parts[-2][0].islower())]
         if len(parts) >= 2 and parts[-2][0].islower():
             hits = [v for (stem, nm), v in ex.L.consts.items() if nm == parts[-1] and stem == parts[-2]]
-        if len(hits) == 1 and parts[0] not in ('http', 'std', 'core', 'hyper'): return hits[0]
+        if not hits and len(parts) >= 3:      # function-local const: `module::function::NAME`
+            hits = [v for (stem, nm), v in ex.L.consts.items() if nm == parts[-1] and stem == parts[-3]]
+        if len(hits) == 1 and parts[0] not in ('http', 'std', 'core', 'hyper'):
+            v = hits[0]
+            if isinstance(v, tuple) and v[0] == 'bytes':
+                from .core import Ref, Cell, PVec
+                return Ref(Cell(PVec([Cell(b) for b in v[1]])))
+            return v
         if len(parts) >= 2:
             ty, nm = parts[-2], parts[-1]
             cands = []
